@@ -320,10 +320,14 @@ def x86_function(fn, symaddr):
 
 
 # ------------------------------------------------- stack-discipline program
-X87_PUSH = {"fld", "flds", "fldl", "fldt", "fild", "filds", "fildl", "fildq", "fildll", "fldz", "fld1"}
+# The x87 component of the machine is the displacement of the TOP-of-stack pointer (not register occupancy):
+# fld*/fild*/fdecstp move it down (+1), fstp*/f*p/ffreep/fincstp move it up (-1), ffree only changes a tag (0).
+X87_PUSH = {"fld", "flds", "fldl", "fldt", "fild", "filds", "fildl", "fildq", "fildll", "fldz", "fld1",
+            "fldpi", "fldl2e", "fldl2t", "fldlg2", "fldln2", "fdecstp"}
 X87_POP = {"fstp", "fstps", "fstpl", "fstpt", "fistp", "fistps", "fistpl", "fistpq", "fistpll", "faddp", "fsubp", "fsubrp",
-           "fmulp", "fdivp", "fdivrp", "fcomip", "fucomip", "fisttp", "fisttpl", "fisttpq", "fisttpll"}
-X87_NONE = {"fchs", "fabs", "fnstcw", "fldcw", "fnstsw", "fxch", "fst", "fsts", "fstl", "fwait", "fnstenv", "fldenv", "fnclex",
+           "fmulp", "fdivp", "fdivrp", "fcomip", "fucomip", "fisttp", "fisttpl", "fisttpq", "fisttpll",
+           "ffreep", "fincstp", "fcomp", "fucomp", "fcomps", "fcompl"}
+X87_NONE = {"ffree", "fnop", "ftst", "fxam", "fcom", "fucom", "frndint", "fscale", "fprem", "fprem1", "fchs", "fabs", "fnstcw", "fldcw", "fnstsw", "fxch", "fst", "fsts", "fstl", "fwait", "fnstenv", "fldenv", "fnclex",
             "fadd", "fsub", "fmul", "fdiv", "fsubr", "fdivr", "fucomi", "fcomi", "fsqrt",
             "fist", "fists", "fistl", "fadds", "faddl", "fsubs", "fsubl", "fmuls", "fmull", "fdivs", "fdivl", "fsubrs", "fsubrl", "fdivrs", "fdivrl"}
 X87_INIT = {"fninit", "finit"}
